@@ -7,8 +7,9 @@ SPEC = os.path.join(ROOT, "spec")
 STATES = os.path.join(ROOT, "states")
 JAR = "/opt/veriftools/tla/tla2tools.jar"
 
+import uuid
 def _metadir(tag):
-    d = os.path.join(STATES, "%s_%d_%d" % (tag, os.getpid(), int(time.time() * 1000) % 100000000))
+    d = os.path.join(STATES, "%s_%d_%s" % (tag, os.getpid(), uuid.uuid4().hex[:12]))
     os.makedirs(d, exist_ok=True)
     return d
 
